@@ -337,6 +337,49 @@ def extreme_scale_stream(res, names, rng, k):
                                  'api': API[name], 'input': b, 'power_of_two': e, 'impl_output': enc_cycs(cs), 'model': ans.split(' ')[0]})
 
 
+def config_cycles_stream(res, names, rng, k):
+    """the configured digits round the REPORTED ranges of the aggregated table; which cycles are extracted is decided on the values
+    themselves.  Histories on the 1/32 grid whose neighbouring ranges differ by 1/32 or 2/32, counted under globalConfig.atol = 1 and 0:
+    the cycle-by-cycle list is the model's, exactly"""
+    core.import_impl()
+    from ffpack import lcc
+    S = 5
+    reqs, meta = [], []
+    for _ in range(k):
+        while True:
+            b, _s = core.gen_history(rng, maxlen=12, closed=(rng.random() < 0.4))
+            if max(abs(v) for v in b) < 64 and len(set(b)) >= 2:
+                break
+        h = [v * 32 + rng.choice([0, 0, 1, -1, 2]) for v in b]
+        if b[0] == b[-1] and rng.random() < 0.7:
+            h[-1] = h[0]
+        digits = rng.choice([1, 0, 1, 2])
+        for name in names:
+            if not valid_for(name, h):
+                continue
+            f = getattr(lcc, API[name])
+            res.evaluations += 1
+            res.stat('cycles_under_globalConfig_atol_%d' % digits)
+            try:
+                with with_atol(digits):
+                    seq = f(floats(h, S), aggregate=False)
+                seq = [] if seq == [[]] else seq
+                cs = [(to_grid(a, S), to_grid(b2, S), units(c)) for a, b2, c in seq]
+            except Exception as e:  # noqa
+                res.failures.append({'signature': f'{res.pid}:{name}:config-cycles:{type(e).__name__}:{enc_list(h)}:{digits}',
+                                     'clause': 'valid history (values k / 32) raised under globalConfig.atol = %d: %s' % (digits, repr(e)[:80]),
+                                     'api': API[name], 'input': h, 'scale': S, 'globalConfig.atol': digits})
+                continue
+            reqs.append(model_line(name, h))
+            meta.append((name, h, digits, cs))
+    for (name, h, digits, cs), ans in zip(meta, core.driver_batch(reqs)):
+        res.traces += 1
+        if enc_cycs(cs) != ans.split(' ')[0]:
+            res.failures.append({'signature': f'{res.pid}:{name}:config-cycles:{enc_list(h)}:{digits}',
+                                 'clause': 'the cycles extracted under globalConfig.atol = %d are not those of the history (near-tie ranges on the 1/32 grid)' % digits,
+                                 'api': API[name], 'input': h, 'scale': S, 'globalConfig.atol': digits, 'impl_output': enc_cycs(cs), 'model': ans.split(' ')[0]})
+
+
 def narrow_dtype_stream(res, names, rng, k):
     """histories that fill a narrow integer dtype (raw ADC counts: int8 in -120..120, uint8 in 0..250, int16 in -30000..30000) given as
     arrays of that dtype: the values fit, their differences do not.  Cycle list and table must be those of the same numbers as floats,
